@@ -530,11 +530,13 @@ Section Render.
       bg_redraw size stacked 0 rows (mkBg klen (b_keys b) rows mx (b_maxrows b) (b_prefix b), snd st)
     else
       bg_write_bar size stacked (mkBg klen (b_keys b) rows (b_max b) (b_maxrows b) (b_prefix b)) (snd st) idx key vals.
-  Inductive b_op := BBar (idx : nat) (key : str) (vals : list Z) | BFoot (idx : nat) (s : str).
+  Inductive b_op := BBar (idx : nat) (key : str) (vals : list Z) | BFoot (idx : nat) (s : str)
+                  | BKeys (ks : list str).   (* SetKeys again (every frame of `rare bargraph`) *)
   Fixpoint bg_run (size : Z) (stacked : bool) (st : bg * term) (ops : list b_op) : result (bg * term) :=
     match ops with
     | [] => Ok st
     | BBar i k v :: r => st' <- bg_bar size stacked st i k v ;; bg_run size stacked st' r
     | BFoot i s :: r => bg_run size stacked (fst st, set_nth (b_maxrows (fst st) + i) s (snd st)) r
+    | BKeys ks :: r => st' <- bg_set_keys (fst st) (snd st) ks ;; bg_run size stacked st' r
     end.
 End Render.
